@@ -38,6 +38,7 @@ F = [
  ("F35", ["C15"], "fixed", "52ac5fb", "Some(bool) cast to String gives the Debug form \"Some(true)\" instead of the cast of the inner value", "Some(true).cast::<String>()"),
  ("F36", ["C07"], "fixed", "ba485b3", "iterating a Polars Datetime column stored in milliseconds as DateTime<Millisecond> hits unreachable!() (the impl matches TimeUnit::Microseconds); a microsecond column is handed out relabelled as milliseconds", "(&Int64Chunked[..].into_datetime(Milliseconds)).titer::<DateTime<Millisecond>>()"),
  ("F37", ["C09"], "fixed", "493d864", "titer() of a Polars String column and of a Datetime column (all three units) keeps its initial size hint while being consumed (the F31 defect in the two impls that were not built from the numeric macro)", "(&StringChunked[\"a\"]).titer() after one next(): size_hint (1, Some(1)), 0 items left"),
+ ("F38", ["C16"], "fixed", "dc806a3", "DateTime<Millisecond|Microsecond>::from(AnyValue::Datetime) of a finer unit delegates to polars' cast, which divides toward zero: pre-epoch instants move forward (ns -1 -> ms 0) while into_unit gives -1", "DateTime::<Millisecond>::from(AnyValue::Datetime(-1, Nanoseconds, None))"),
  ("F34", ["C20"], "fixed", "86ca491", "half_life treats a null correlation inside the bisection as an exact hit and stops early", "ramp 0..9 mp=5 -> 6, expected 5"),
 ]
 out = {"_comment": "Genuine defects of Teamon9161/tevec found by the checks (DESIGN.md section 6). status=open: recorded, not repaired: the check prints KNOWN-FINDING and exits 0 for cases matching the narrow classifier compiled into the check under this id. status=fixed: repaired by the named commit in /repo; a fixed entry suppresses nothing. This file is never written at check run time.",
